@@ -1,6 +1,7 @@
 (* Properties/C17.v — Kubernetes manifests: data and surrounding fields survive load/edit/save. *)
-From Coq Require Import List String Bool ZArith Arith.
-From YT Require Import Base.Str Base.KV Model.Doc Model.Codec Model.Base64 Model.K8s Proofs.Base64Proofs Proofs.K8sProofs.
+From Coq Require Import List String Bool ZArith Arith Permutation.
+From YT Require Import Base.Str Base.KV Model.Doc Model.Codec Model.Base64 Model.K8s Model.Dom Model.Analytics Model.DocSet
+  Proofs.Base64Proofs Proofs.K8sProofs Proofs.RebuildExactProofs Proofs.EmbeddedPropsProofs.
 Import ListNotations.
 Local Open Scope list_scope.
 
@@ -57,4 +58,30 @@ Example C17_ex :
   let doc := [("data"%string, GMap [("bad"%string, GInt 1)]); ("kind"%string, GStr "Secret")] in
   load_doc doc = None /\ load_doc [("kind"%string, GInt 1)] = None /\
   b64_enc [104; 105]%Z = [97; 71; 107; 61]%Z.
+Proof. vm_compute. repeat split; reflexivity. Qed.
+
+(* ---------- a document embedded in a manifest as properties (k8s.Properties): Save writes one text item per flattened leaf
+   (name = path, text = the value), reopening re-inserts every item with AddValueAt in whatever order the manifest's map
+   hands them out.  Saved and reopened, the document has the same flattened leaves as the edited one — for every
+   well-formed document with path-safe names whose leaves are texts and whose list items each hold a scalar (an empty
+   item has no spelling as properties), and for EVERY order of the items.  A corollary of C02's rebuild theorem. *)
+Theorem C17_embedded_props_round_trip : forall kvs items,
+  wf (Con kvs) = true -> keys_safe (Con kvs) = true -> eis (Con kvs) = true ->
+  forallb (fun e => is_str (snd e)) (flatten (Con kvs)) = true ->
+  Permutation items (enc_props (Con kvs)) ->
+  flatten (props_doc items) = flatten (Con kvs).
+Proof. exact embedded_props_round_trip. Qed.
+Print Assumptions C17_embedded_props_round_trip.
+
+(* the items Save leaves behind are named by the flattened paths, one each *)
+Theorem C17_embedded_props_item_names : forall d, map fst (enc_props d) = map fst (flatten d).
+Proof. exact enc_props_names. Qed.
+Print Assumptions C17_embedded_props_item_names.
+
+Example C17_embedded_props_ex :
+  let d := Con [("app"%string, Con [("name"%string, Leaf (SStr "svc")); ("ports"%string, Lst [Leaf (SStr "80"); Leaf (SStr "443")])]);
+                ("srv"%string, Lst [Con [("host"%string, Leaf (SStr "h0"))]])] in
+  enc_props d = [("app.name", "svc"); ("app.ports[0]", "80"); ("app.ports[1]", "443"); ("srv[0].host", "h0")]%string /\
+  props_doc (rev (enc_props d)) = d /\
+  forallb (fun e => is_str (snd e)) (flatten d) = true /\ eis d = true.
 Proof. vm_compute. repeat split; reflexivity. Qed.
